@@ -61,7 +61,7 @@ def run(ctx):
     tables = json.load(open(os.path.join(common.LEAN, "Pyunicorn", "Generated",
                                          "StructC01.json")))["tables"] \
         if os.path.exists(os.path.join(common.LEAN, "Pyunicorn", "Generated", "StructC01.json")) else {}
-    rounds = [(cname, mk, r) for cname, mk in SPECS.items() for r in range(2)]
+    rounds = [(cname, mk, r) for cname, mk in SPECS.items() for r in range(2 if quick else 8)]
     for cname, mk, rnd in rounds:
         spec = mk()
         cls = spec["cls"]
